@@ -19,7 +19,8 @@ from runner import HarnessError
 
 PID = "C42"
 LEVEL = "exploration"
-RULE = ("Hypothesis trees (<=7 atoms, paren nesting <=2) over all 14 unary, 17 regex, ~c and naked-regex atoms with "
+RULE = ("all 1200 renderings of every 2-/3-leaf tree over & | juxtaposition with every placement of ! (exhaustive), plus "
+        "Hypothesis trees (<=7 atoms, paren nesting <=2) over all 14 unary, 17 regex, ~c and naked-regex atoms with "
         "! & | juxtaposition and redundant parentheses, rendered with varied whitespace/parenthesisation/quoting, each "
         "evaluated on 36 pool flows of all types + 2 case-specific flows; non-trivial = tree has >=2 different "
         "connectives or a parenthesised group; distinct by (tree shape, rendered text)")
@@ -36,7 +37,7 @@ TECHNIQUE = "Hypothesis-generated expression trees rendered to text vs. independ
 LEVEL_TEXT = ("generated-input search: random expression trees over the complete operator set with varied rendering, "
               "compared on a fixed pool of flows of every type against an independent evaluator; not exhaustive")
 LEVEL_NOTE = "trusts Python re, the spec->flow builder in lib/ref_filter.py and str(DNSMessage)"
-QUICK_N, THOROUGH_N = 12_000, 600_000
+QUICK_N, THOROUGH_N = 10_000, 500_000
 BUDGET_S = (150, 7200)
 
 # ------------------------------------------------------------------ regex grammar
@@ -95,7 +96,7 @@ def _atoms(regex):
     )
 
 
-def _trees():
+def _trees(max_paren=2):
     regex = st.one_of(_regex(), _regex(), st.just(""))
     atom = _atoms(regex)
 
@@ -109,7 +110,7 @@ def _trees():
             st.tuples(st.just("P"), ch, _STYLE),
         )
 
-    return st.recursive(atom, ext, max_leaves=7).filter(lambda t: rf.paren_depth(t) <= 2 and _depth(t) <= 5)
+    return st.recursive(atom, ext, max_leaves=7).filter(lambda t: rf.paren_depth(t) <= max_paren and _depth(t) <= 5)
 
 
 def _depth(t):
@@ -126,7 +127,47 @@ _SUBJ = st.lists(st.sampled_from(_WORDS + [" ", "'", '"', "~", "\\", "(", ")", "
 
 
 def strategy(ctx):
-    return st.tuples(_trees(), _SUBJ, _SUBJ)
+    # the grammar's parse time grows ~8x per level of parenthesis nesting: 2 levels in the quick tier, 3 in the thorough one
+    return st.tuples(_trees(3 if ctx.thorough else 2), _SUBJ, _SUBJ)
+
+
+def _small_trees():
+    """every tree with 2 or 3 leaves (fixed atoms ~q ~e ~marked by position), every choice of & | juxtaposition at the
+    inner nodes and every placement of ! on nodes and leaves: 24 + 576 trees - all precedence/grouping combinations."""
+    import itertools
+    A, B, C = ["U", "q", 0], ["U", "e", 0], ["U", "marked", 0]
+
+    def neg(t, flag, style):
+        return ["!", t, style] if flag else t
+
+    out = []
+    for style in (0x2AAAAAAA & ~0x55, 0):      # spaced / tight rendering
+        sp = 5 | (5 << 4) if style else 0          # binary separators: " op " or "op"; juxtaposition: " "
+        for op in "&|J":
+            for n in itertools.product((0, 1), repeat=3):
+                out.append(neg([op, [neg(A, n[1], 1), neg(B, n[2], 1)], sp], n[0], 1 | (3 << 3)))
+        for op1 in "&|J":
+            for op2 in "&|J":
+                for n in itertools.product((0, 1), repeat=5):
+                    inner = neg([op2, [neg(A, n[2], 0), neg(B, n[3], 0)], sp], n[1], 0)
+                    out.append(neg([op1, [inner, neg(C, n[4], 0)], sp | (3 << 3) | (3 << 8)], n[0], 3 << 3))
+                    inner = neg([op2, [neg(B, n[2], 0), neg(C, n[3], 0)], sp], n[1], 0)
+                    out.append(neg([op1, [neg(A, n[4], 0), inner], sp | (3 << 3) | (3 << 8)], n[0], 3 << 3))
+    return out
+
+
+def run(ctx):
+    from runner import hyp, norm
+    trees = _small_trees()
+    for i, t in enumerate(trees):
+        if i % ctx.nshards != ctx.shard:
+            continue
+        ctx.cur_case = norm([t, "", ""])
+        ctx.ev()
+        ctx.cls("exhaustive-small-tree")
+        check_case(ctx.cur_case, ctx)
+    ctx.extra["small_trees_enumerated"] = len([i for i in range(len(trees)) if i % ctx.nshards == ctx.shard])
+    hyp(ctx, strategy(ctx), check_case, ctx.n(QUICK_N, THOROUGH_N))
 
 
 # ------------------------------------------------------------------ flow pool (per process)
@@ -173,6 +214,9 @@ def check_case(case, ctx):
         ctx.cls("simple")
     for c in conn:
         ctx.cls("conn:" + c)
+    for a in _atoms_of(tree):
+        ctx.cls("atom:" + a[0])
+        ctx.extra["atom_codes_seen:" + (a[1] if a[0] in "UR" else a[0])] = 1
     if jor:
         ctx.cls("juxtaposition-under-or")
     if glued:
@@ -239,6 +283,14 @@ def check_case(case, ctx):
         else:
             b = "verdict:tree"
         ctx.fail(b, "%r on flow %s: got %r, reference %r" % (text, _short(s), got, want))
+
+
+def _atoms_of(t):
+    if t[0] in ("!", "P"):
+        return _atoms_of(t[1])
+    if t[0] in ("&", "|", "J"):
+        return [a for c in t[1] for a in _atoms_of(c)]
+    return [t]
 
 
 def _try_parse(flowfilter, text):
